@@ -53,7 +53,8 @@ class PosResponseSuppressible:
     def from_et(et_element: ElementTree.Element,
                 doc_frags: List[OdxDocFragment]) -> "PosResponseSuppressible":
 
-        bit_mask = int(odxrequire(et_element.findtext("BITMASK")))
+        # the XSD specifies the BIT-MASK as xsd:hexBinary
+        bit_mask = int(odxrequire(et_element.findtext("BIT-MASK")), 16)
 
         coded_const_snref = None
         if (cc_snref_elem := et_element.find("CODED-CONST-SNREF")) is not None:
